@@ -1,7 +1,7 @@
 (** C17 -- Literals denote exactly what is written, or are rejected.
     This file holds only the pinned statements; proofs live in Proofs/C17 (and Proofs/C05 for hex sections). *)
 From RS Require Import Base.Bytes Base.Outcome Lex.Tokens Lex.Literals Interp.Val Interp.Ast Interp.Eval
-  Parse.Verdict Parse.Automaton Spec.Literal Proofs.C17.Ints Proofs.C17.Quad Proofs.C17.Sock.
+  Parse.Verdict Parse.Automaton Spec.Literal Proofs.C17.Ints Proofs.C17.Quad Proofs.C17.Sock Proofs.C05.Literal Proofs.C17.Strings.
 Open Scope N_scope.
 
 (** a decimal digit string (leading zeros allowed) is the number it spells if that fits in 64 bits, else rejected *)
@@ -108,7 +108,23 @@ Theorem C17_sock_slash_exact : forall functions classes modules exec p a b ip vb
   = if 65535 <? n then RErr EType (set_loc p2 (p_loc p1)) else ROk (VSock4 ip n) (set_loc p2 (p_loc p1)).
 Proof. exact sock_slash_exact. Qed.
 
-(* C17_hex_section_rejects: added by the C05 session *)
+(** a string literal: a closed |..| section with an odd number of hex digits, or holding a character that
+    is neither a hex digit, one of the six separators, white space nor the closing bar, makes the whole
+    literal a parse error -- whatever well-formed text precedes it and whatever follows *)
+Theorem C17_hex_section_rejects : forall segs b rest,
+  forallb seg_ok segs = true -> bad_section_ok b = true ->
+  decode_strlit (spell segs ++ spell_bad b ++ rest) = None.
+Proof. exact hex_section_rejects. Qed.
+
+Theorem C17_str_token_rejects : forall l segs b rest, forallb seg_ok segs = true -> bad_section_ok b = true ->
+  val_of_token {| tk_type := TStringLit; tk_loc := l; tk_val := Some (spell segs ++ spell_bad b ++ rest) |} = Err EParse.
+Proof. exact str_token_rejects. Qed.
+
+(** a string token is either decoded or a parse error, never anything else *)
+Theorem C17_str_token_total : forall l s,
+  (exists b, val_of_token {| tk_type := TStringLit; tk_loc := l; tk_val := Some s |} = Ok (VStr b) /\ decode_strlit s = Some b)
+  \/ val_of_token {| tk_type := TStringLit; tk_loc := l; tk_val := Some s |} = Err EParse.
+Proof. exact str_token_total. Qed.
 
 (** non-vacuity: 2^64-1 with leading zeros, 2^64, "+7", "fF", "1.2.3.4", "01.2.3.4", "256.1.1.1",
     "1.2.3", [let x = 10.0.0.1:65535;] and the same with port 65536 *)
